@@ -9,7 +9,8 @@ from . import common
 from .common import Corr, f2hex, hex2f, frac2s, flist, parse_list
 
 ID = "C20"
-LEAN_MODULES = ["TempestVerif.Props.C20"]
+LEAN_MODULES = ["TempestVerif.Props.C20", "TempestVerif.Props.C20Audit", "TempestVerif.Props.C20Sites",
+                "TempestVerif.Props.C20VolVar", "TempestVerif.Props.C20Round", "TempestVerif.Props.C20RelRound"]
 RULE = ("ess-T: weight vectors of length 1..1e4 (log-uniform exponents spanning up to 300 decades, up to 1e300, many zeros, one dominant, "
         "uniform) and log-weight vectors (incl. -inf entries, large shifts): Float model vs effective_sample_size/compute_ess, |d|<=1e-9(1+|v|); "
         "non-trivial = N>=2 and not all equal. ess-Q: integer weights with power-of-two sum times 2^e: every float operation up to the final "
@@ -21,7 +22,17 @@ RULE = ("ess-T: weight vectors of length 1..1e4 (log-uniform exponents spanning 
         "duplicates, zeros, log-normal; bins=1000/ess=0.99 (sampler constants) and others: kept index set exact unless a deciding margin "
         "(|w_i-theta| relative or |ratio-ess|) is < 1e-9, weights relative 1e-9; non-trivial = something was trimmed or more than one pass ran. "
         "volvar-reference: real volume_variation vs an exact-rational transcription of Lemmas.VolVar.volvar (all branches) on dyadic clouds; "
-        "volvar-invariance: real vs real under x->xA^T+b (cond(A)<=1e3, n>=5d) and w->c w, relative 1e-6.")
+        "volvar-invariance: real vs real under x->xA^T+b (cond(A)<=1e3, n>=5d) and w->c w, relative 1e-6. "
+        "CLAUSE AUDIT (harness/c20_audit.py): ess-property-F / trim-property run the property's own oracle on the REAL functions for every "
+        "generated vector (lengths up to 1e4, dynamic range 1e300 inside one vector, n=1, zeros, ess>1, bins=1); bounds are checked with the "
+        "allowance (4N+16)eps that covers any order of summation, binary scaling must be bit-identical; non-trivial = N>=2. "
+        "cess-neginf-T: log-weights with -inf entries (40 %), all -inf every 10th case. volvar-exec-Q: dyadic clouds (full rank, constant "
+        "column, tilted hyperplane, identical points, an off-plane point of weight zero, too few) through the executable Lean model "
+        "Model.VolVar at Rat: branch exact (tilted hyperplanes: numpy's rank tolerance decides, counted as near ties when it differs), value "
+        "1e-9 (1e-6 on the ridge branch), and H_inv of C20_volvar_exec_eq_matrix checked exactly per case. volvar-exec-F: generic clouds "
+        "d<=6, weights None / skewed / with zeros, Float model vs numpy. callsite-train: a live sampler state per (clustering on/off); "
+        "Trainer.run driven with synthetic weights (tempering-like, ties, zeros) and beta in {0, >0}; the fitting routines are replaced by "
+        "recorders; compared with Model.TrimSites.trainerRun. callsite-metric: _compute_metric_and_weights on live states in both modes.")
 MODELLED = ["np.sum is modelled as a left fold (numpy sums pairwise): identical over the reals and over exact dyadics, toleranced over doubles",
             "np.percentile (default 'linear' method, numpy 2.x: q=p/100, v=(n-1)q, floor, gamma, _lerp with the t>=0.5 form) and np.linspace are "
             "modelled by hand in Model/Trim.lean and checked bit for bit against the installed numpy (pct-F, lin-F); a numpy change would surface there",
@@ -34,6 +45,20 @@ MODELLED = ["np.sum is modelled as a left fold (numpy sums pairwise): identical 
             "the loop breaks unconditionally at grid index 0 (`or i == 0`, fix 8ceb8ba; mirrored in Model.Trim.search), so termination no longer "
             "depends on the rounded ESS ratio; C20_trim_ess at index 0 uses that the exact ratio is 1 (in doubles it can be one ulp short: the "
             "search oracle allows 1e-12 relative slack)"]
+MODELLED += ["volume_variation also has an EXECUTABLE model (Model/VolVar.lean, lists over the scalar interface, run at Rat and Float); "
+             "np.linalg.matrix_rank(cov) < d and np.linalg.inv raising are both modelled by the Gauss-Jordan inverse of Model.Student "
+             "answering `none` (exact for positive semi-definite matrices in exact arithmetic); that this routine inverts what it is "
+             "given and fails exactly on singular input is hypothesis InvOK (H_inv) of C20_volvar_exec_eq_matrix / "
+             "C20_volvar_exec_affine_invariant, proved for d = 1 (InvOK_one) and checked exactly per case by volvar-exec-Q",
+             "IEEE rounding: C20Round proves, for every monotone idempotent rounding fixing 0 and 1, that normalised weights stay in "
+             "[0,1], that one particle has ESS exactly 1 and that binary scaling leaves the computed ESS bit-identical; `1 <= ESS <= N` "
+             "and `ESS = N` for uniform weights are NOT theorems in rounded arithmetic (effective_sample_size(np.ones(21)) = "
+             "21.000000000000007, np.ones(5) gives 4.999999999999999): ess-property-F checks them on the real code with the allowance (4N+16)*2^-52 and counts excursions. "
+             "C20RelRound proves, under the standard relative-error model H_rel(u) of rounding (no overflow/underflow), that the Float "
+             "evaluation of the model is the exact ESS up to 3N+4 roundings, hence 1-(3N+4)u <= ESS <= N(1+(6N+8)u) -- inside that allowance",
+             "call sites: Model/TrimSites.lean (Trainer.run up to the fitting call, execute_iteration's object flow, "
+             "_compute_metric_and_weights); the fitting routines, the clusterer and the history flattening are outside "
+             "(C14, C15, C19, C07); compute_posterior's use of trim_weights is C12's model and suites"]
 ASSUMPTIONS = ["weights are finite, non-negative, with positive sum; 0 < ess < 1; bins >= 1",
                "affine invariance of the volume metric holds on the full-rank branch only (carried as a hypothesis of C20_volvar_affine_invariant); "
                "the ridge-regularised branch (rank < d) is not affine invariant"]
@@ -596,7 +621,7 @@ def _volvar_suites(tier):
         real = _real_volvar([[float(t) for t in r] for r in x], None if ks is None else [float(k) for k in ks])
         cref.case(([[frac2s(t) for t in r] for r in x], ks), kind != "too-few")
         cref.count("branch:" + kind)
-        tol = 1e-9 if kind == "full" else 1e-6
+        tol = 1e-9 if kind == "full" else 1e-8
         if not _close(real, ref, tol):
             cref.disagree(kind="volvar-ref", x=[[float(t) for t in r] for r in x], w=ks, impl=real, model=ref, branch=kind)
         cref.sample({"n": n, "d": d, "branch": kind, "impl": real, "model": ref})
@@ -625,10 +650,11 @@ def _volvar_suites(tier):
     made = 0
     while made < n_ill:
         d = rng.randint(2, 5)
-        n = rng.randint(5 * d, 5 * d + 60)
-        x = npr.standard_normal((n, d)) @ _cond_matrix(npr, d, 10.0 ** rng.uniform(0, 0.7)).T + npr.uniform(-5, 5, d)
-        w = np.exp(npr.uniform(0, math.log(10.0 ** rng.uniform(0, 2)) + 1e-12, n))
-        A = _cond_matrix(npr, d, 10.0 ** rng.uniform(3, 5.5))
+        top = made % 4 == 0          # every 4th case: cond(A) in [3e5, 1e6] (the end of the quantifier) on a well-conditioned cloud
+        n = rng.randint(40 * d, 40 * d + 60) if top else rng.randint(5 * d, 5 * d + 60)
+        x = npr.standard_normal((n, d)) @ _cond_matrix(npr, d, 1.0 if top else 10.0 ** rng.uniform(0, 0.7)).T + npr.uniform(-5, 5, d)
+        w = np.exp(npr.uniform(0, math.log(10.0 ** rng.uniform(0, 0.3 if top else 2)) + 1e-12, n))
+        A = _cond_matrix(npr, d, 10.0 ** (rng.uniform(5.5, 6.0) if top else rng.uniform(3, 5.5)))
         b = npr.uniform(-100, 100, d)
         wn = w / w.sum()
         xc = x - (x * wn[:, None]).sum(0)
@@ -641,7 +667,7 @@ def _volvar_suites(tier):
         v0 = _real_volvar(x, w)
         v1 = _real_volvar(x @ A.T + b, w)
         cill.case(([f2hex(t) for t in x.ravel()[:8]], f2hex(kA)), True)
-        cill.count(f"condA=1e{int(math.log10(kA))}")
+        cill.count("condA>=3e5" if kA >= 3e5 else f"condA=1e{int(math.log10(kA))}")
         if not (v0 >= 0 and _close(v0, v1, tol)):
             cill.disagree(kind="volvar-inv-ill", x=x.tolist(), w=w.tolist(), A=A.tolist(), b=b.tolist(), c=1.0, impl=v1, model=v0, tol=tol)
         cill.sample({"n": n, "d": d, "condA": kA, "v": v0, "v_transformed": v1, "tol": tol})
@@ -652,7 +678,15 @@ def correspond(tier):
     drv = common.Driver()
     out = [_ess_T(tier, drv), _ess_Q(tier, drv), _lin_F(tier, drv), _pct_F(tier, drv), _trim_Q(tier, drv), _trim_T(tier, drv)]
     out += _volvar_suites(tier)
+    from . import c20_audit
+    out += c20_audit.suites(tier, drv)
     return out
+
+
+def translators():
+    # Props/C20Sites.lean states `C20_gen_trim_constants` on the regenerated TRIM_ESS / TRIM_BINS of /repo's config.py
+    from translate import g1_constants
+    return [g1_constants.generate()]
 
 
 # ------------------------------------------------------------------ property oracle on the real code
@@ -724,8 +758,8 @@ def oracle_trim(w, ess, bins):
         e0 = float(t.effective_sample_size(w0.copy()))
     finally:
         cm.__exit__(None, None, None)
-    if not (e1 >= ess * e0 * (1 - 1e-12)):
-        return f"ESS guarantee broken: ESS(trimmed) = {e1!r} < {ess} * ESS(all) = {ess * e0!r}"
+    if not (e1 >= min(ess, 1.0) * e0 * (1 - 1e-12)):
+        return f"ESS guarantee broken: ESS(trimmed) = {e1!r} < {min(ess, 1.0)} * ESS(all) = {min(ess, 1.0) * e0!r}"
     return None
 
 
@@ -765,7 +799,29 @@ def _enc(a):
     return [f2hex(t) for t in np.asarray(a, dtype=float).ravel().tolist()]
 
 
+def oracle_cess(lw):
+    """compute_ess on log-weights (possibly -inf) against effective_sample_size of the weights they stand for"""
+    t = _tools()
+    la = np.array(lw, dtype=float)
+    if not np.any(np.isfinite(la)):
+        return None
+    cm = _quiet()
+    try:
+        ce = float(t.compute_ess(la.copy()))
+        w = np.exp(la - np.max(la))
+        v = float(t.effective_sample_size(w))
+    finally:
+        cm.__exit__(None, None, None)
+    n = len(lw)
+    if not (abs(ce * n - v) <= 1e-9 * v):
+        return f"compute_ess(logw) * N = {ce * n!r} but effective_sample_size(exp(logw - max)) = {v!r}"
+    if not ((1.0 / n) * (1 - 1e-9) <= ce <= 1 + 1e-9):
+        return f"compute_ess = {ce!r} outside [1/N, 1]"
+    return None
+
+
 def search(tier, hints):
+    from . import c20_audit
     found = []
 
     def add(kind, msg, **kw):
@@ -777,13 +833,22 @@ def search(tier, hints):
         try:
             if h.get("kind") == "ess" and "w_hex" in h:
                 w = [hex2f(t) for t in h["w_hex"]]
-                m = oracle_ess(w)
+                m = oracle_ess(w) or c20_audit.ess_property(w)[0]
                 if m and add("ess", m, w_hex=h["w_hex"]):
+                    return found
+            elif h.get("kind") == "cess" and "logw_hex" in h:
+                lw = [hex2f(t) for t in h["logw_hex"]]
+                m = oracle_cess(lw)
+                if m and add("cess", m, logw_hex=h["logw_hex"]):
                     return found
             elif h.get("kind") == "trim":
                 w = [hex2f(t) for t in h["w_hex"]]
-                m = oracle_trim(w, h["ess"], h["bins"])
+                m = c20_audit.trim_property(w, h["ess"], h["bins"])[0]
                 if m and add("trim", m, w_hex=h["w_hex"], ess=h["ess"], bins=h["bins"]):
+                    return found
+            elif h.get("kind") in ("site-train", "site-flow", "site-metric"):
+                r = c20_audit.replay_site(h)
+                if r["fails"] and add(h["kind"], r["detail"], **{k: h[k] for k in ("seed", "clustering", "w_hex", "beta", "vv", "d") if k in h}):
                     return found
             elif h.get("kind") == "volvar-ref":
                 m = oracle_volvar(h["x"], h["w"], exact=True)
@@ -801,10 +866,19 @@ def search(tier, hints):
     fixed = [[1.0], [1.0, 1.0], [0.25] * 7, [1.0, 0.0, 0.0], [1e300, 1e300, 1.0], [1e-300, 1e-300], [3.0, 1.0, 2.0, 0.0]]
     for w in fixed + [_weights(rng, _len(rng, big=False))[1] for _ in range(6000 if big else 500)]:
         try:
-            m = oracle_ess(w)
+            m = oracle_ess(w) or c20_audit.ess_property(w)[0]
         except Exception as e:  # noqa
             m = f"raised {type(e).__name__}: {e}"
         if m and add("ess", m, w_hex=_enc(w)):
+            return found
+    for _ in range(300 if big else 60):
+        n = rng.randint(1, 40)
+        lw = [(-math.inf if rng.random() < 0.4 else rng.gauss(0, 30.0)) for _ in range(n)]
+        try:
+            m = oracle_cess(lw)
+        except Exception as e:  # noqa
+            m = f"raised {type(e).__name__}: {e}"
+        if m and add("cess", m, logw_hex=_enc(lw)):
             return found
     # 3. trimming
     tr = [([1.0, 1.0, 1.0, 1.0], 0.99, 1000), ([0.5, 0.5], 0.5, 1), ([1.0], 0.99, 1000), ([1.0, 2.0, 3.0, 4.0], 0.9, 5),
@@ -816,10 +890,17 @@ def search(tier, hints):
             tr.append((w, 0.99, 1000))
         else:
             tr.append((w, rng.choice([0.3, 0.5, 0.9, 0.99, 0.999]), rng.choice([1, 2, 3, 10, 100, 1000])))
+    tr += [([1.0, 2.0, 3.0], 512.0, 10), ([0.75, 0.4375, 0.1875], 1.0, 1000), ([3.0, 1.0, 2.0], 0.9, 1)]
     for w, ess, bins in tr:
-        m = oracle_trim(w, ess, bins)
+        try:
+            m = c20_audit.trim_property(w, ess, bins)[0]
+        except Exception as e:  # noqa
+            m = f"raised {type(e).__name__}: {e}"
         if m and add("trim", m, w_hex=_enc(w), ess=ess, bins=bins):
             return found
+    # 3b. call sites (Trainer.run, execute_iteration)
+    if c20_audit.search_sites(tier, lambda kind, msg, **kw: add(kind, msg, **kw)):
+        return found
     # 4. volume variation
     npr = np.random.RandomState(rng.getrandbits(31))
     for _ in range(1500 if big else 120):
@@ -849,10 +930,16 @@ def replay(obj):
         from . import witnesses
         return witnesses.ALL[f["replay"]["witness"]]()
     kind = f.get("kind")
+    from . import c20_audit
     if kind == "ess":
-        msg = oracle_ess([hex2f(t) for t in f["w_hex"]])
+        w = [hex2f(t) for t in f["w_hex"]]
+        msg = oracle_ess(w) or c20_audit.ess_property(w)[0]
+    elif kind == "cess":
+        msg = oracle_cess([hex2f(t) for t in f["logw_hex"]])
     elif kind == "trim":
-        msg = oracle_trim([hex2f(t) for t in f["w_hex"]], f["ess"], f["bins"])
+        msg = c20_audit.trim_property([hex2f(t) for t in f["w_hex"]], f["ess"], f["bins"])[0]
+    elif kind in ("site-train", "site-flow", "site-metric"):
+        return c20_audit.replay_site(f)
     elif kind == "volvar":
         msg = oracle_volvar(f["x"], f.get("w"), f.get("A"), f.get("b"), f.get("c"), exact=bool(f.get("exact")))
     else:
